@@ -31,7 +31,10 @@ RULE = (
     "spacing|shape, region inferred/padded/shrunk, centre/drop flags, arrays 1-D/2-D/Fortran/strided/read-only and pandas Series with "
     "shuffled index, data components float64/float32/int16/int32/int64 uniform or mixed in both orders, integer weights; histories on ONE "
     "instance with region=None or given: cloud A, another cloud, a subset, other data, A again, clones after the calls, and the same "
-    "ndarrays modified in place between calls) or one variance_to_weights call (arrays of 1..40 variances 10^[-6,6] with zeros, 1e-300, NaNs, negatives, values "
+    "ndarrays modified in place between calls; re-configuration histories: built with P1, optionally used, then 1..3 of uncertainty / "
+    "spacing / shape<->spacing / region None<->given / adjust / center_coordinates / drop_coords changed by set_params, attribute "
+    "assignment or clone().set_params and used with the weights the rule in force needs - judged with the get_params snapshot taken "
+    "just before the call) or one variance_to_weights call (arrays of 1..40 variances 10^[-6,6] with zeros, 1e-300, NaNs, negatives, values "
     "at / beside tol, 1-D/2-D/0-d, tuples of 1..3 arrays, lists, Series, read-only, float32/int input, tol in {default,0,1e-3,10}, "
     "dtype float64/float32). Non-trivial BlockMean case = at least 2 blocks with >= 2 members whose rule quantity (variance, sum of "
     "weights, weighted variance) differs; non-trivial variance_to_weights case = at least 2 distinct variances above tol plus a "
@@ -53,42 +56,64 @@ ASSUMPTIONS = [
 ]
 FLOORS = {
     "quick": {
-        "eval:blockmean_returns": 660, "eval:blockmean_layout": 660, "eval:labels_vs_reference_geometry": 660,
-        "eval:params_unchanged_by_filter": 670, "eval:block_mean_value": 9700, "eval:block_coordinate": 12900,
-        "eval:block_weight_rule": 1000, "eval:block_weight_range": 1100, "eval:blockmean_inputs_unmodified": 670,
-        "eval:uncertainty_without_weights_rejected": 12, "eval:v2w_values": 2000, "eval:v2w_input_unmodified": 1900,
-        "eval:v2w_returns": 1900, "eval:series_backing_store_unmodified": 32, "distinct_nontrivial": 1300,
-        "class:rule:variance": 220, "class:rule:uncertainty": 170, "class:rule:weighted_variance": 220,
-        "v2w_class:readonly": 950, "v2w_class:has_nan": 480, "class:data_dtype_present:int16": 56,
-        "class:data_dtype_present:int32": 64, "class:data_dtype_present:int64": 61, "class:data_dtype_present:float32": 92,
-        "block_weight_rule_judged:data_dtype:int16": 77, "block_weight_rule_judged:data_dtype:int32": 77,
-        "block_weight_rule_judged:data_dtype:int64": 78, "block_weight_rule_judged:data_dtype:float32": 73,
-        "class:mixed_data_dtypes:integer_then_float64": 21, "class:mixed_data_dtypes:float64_then_integer": 20,
-        "class:mixed_data_dtypes:float32_then_float64": 14, "class:mixed_data_dtypes:float64_then_float32": 13,
-        "class:weights_dtype_present:int32": 55, "class:weights_dtype_present:int64": 47, "class:history:reuse_calls": 110,
+        "eval:blockmean_returns": 730, "eval:blockmean_layout": 730, "eval:labels_vs_reference_geometry": 730,
+        "eval:params_unchanged_by_filter": 740, "eval:block_mean_value": 10800, "eval:block_coordinate": 14700,
+        "eval:block_weight_rule": 1100, "eval:block_weight_range": 1200, "eval:blockmean_inputs_unmodified": 740,
+        "eval:uncertainty_without_weights_rejected": 17, "eval:v2w_values": 2100, "eval:v2w_input_unmodified": 2000,
+        "eval:v2w_returns": 2000, "eval:series_backing_store_unmodified": 32, "distinct_nontrivial": 1400,
+        "class:rule:variance": 230, "class:rule:uncertainty": 210, "class:rule:weighted_variance": 240,
+        "v2w_class:readonly": 1000, "v2w_class:has_nan": 480, "class:data_dtype_present:int16": 66,
+        "class:data_dtype_present:int32": 71, "class:data_dtype_present:int64": 70, "class:data_dtype_present:float32": 100,
+        "block_weight_rule_judged:data_dtype:int16": 89, "block_weight_rule_judged:data_dtype:int32": 85,
+        "block_weight_rule_judged:data_dtype:int64": 88, "block_weight_rule_judged:data_dtype:float32": 83,
+        "class:mixed_data_dtypes:integer_then_float64": 23, "class:mixed_data_dtypes:float64_then_integer": 22,
+        "class:mixed_data_dtypes:float32_then_float64": 16, "class:mixed_data_dtypes:float64_then_float32": 17,
+        "class:weights_dtype_present:int32": 62, "class:weights_dtype_present:int64": 54, "class:history:reuse_calls": 110,
         "class:history:reuse_calls:region_none": 78, "class:history:reuse_calls:region_given": 11,
         "class:history:reuse_calls:rule_variance": 30, "class:history:reuse_calls:rule_uncertainty": 22,
         "class:history:reuse_calls:rule_weighted_variance": 22, "class:history:inplace_calls": 57,
         "class:history:inplace_calls:region_none": 35, "class:history:clone_after_filter_calls": 32,
+        "class:reconfigured_calls": 48, "class:reconfigured:how:set_params": 13,
+        "class:reconfigured:how:attribute_assignment": 11, "class:reconfigured:how:clone_then_set_params": 13,
+        "class:reconfigured:used_before": 22, "class:reconfigured:never_used_before": 22,
+        "class:reconfigured:uncertainty_False_to_True_with_weights": 12,
+        "class:reconfigured:uncertainty_True_to_False_with_weights": 8,
+        "class:reconfigured:rejected_without_weights_after_switching_uncertainty_on": 4,
+        "class:reconfigured:rule_in_force:uncertainty": 22, "class:reconfigured:rule_in_force:weighted_variance": 13,
+        "class:reconfigured:param:uncertainty": 25, "class:reconfigured:param:spacing": 11,
+        "class:reconfigured:param:shape_vs_spacing": 8, "class:reconfigured:param:region": 9,
+        "class:reconfigured:param:adjust": 10, "class:reconfigured:param:center_coordinates": 11,
+        "class:reconfigured:param:drop_coords": 11,
     },
     "thorough": {
-        "eval:blockmean_returns": 9800, "eval:blockmean_layout": 9800, "eval:labels_vs_reference_geometry": 9800,
-        "eval:params_unchanged_by_filter": 9900, "eval:block_mean_value": 150500, "eval:block_coordinate": 196500,
-        "eval:block_weight_rule": 16300, "eval:block_weight_range": 17000, "eval:blockmean_inputs_unmodified": 9900,
-        "eval:uncertainty_without_weights_rejected": 96, "eval:v2w_values": 29900, "eval:v2w_input_unmodified": 28400,
-        "eval:v2w_returns": 28400, "eval:series_backing_store_unmodified": 240, "distinct_nontrivial": 19900,
-        "class:rule:variance": 3400, "class:rule:uncertainty": 2800, "class:rule:weighted_variance": 3400,
-        "v2w_class:readonly": 14500, "v2w_class:has_nan": 7200, "class:data_dtype_present:int16": 1100,
-        "class:data_dtype_present:int32": 1100, "class:data_dtype_present:int64": 1000, "class:data_dtype_present:float32": 1700,
-        "block_weight_rule_judged:data_dtype:int16": 1400, "block_weight_rule_judged:data_dtype:int32": 1400,
-        "block_weight_rule_judged:data_dtype:int64": 1300, "block_weight_rule_judged:data_dtype:float32": 1400,
-        "class:mixed_data_dtypes:integer_then_float64": 430, "class:mixed_data_dtypes:float64_then_integer": 360,
-        "class:mixed_data_dtypes:float32_then_float64": 340, "class:mixed_data_dtypes:float64_then_float32": 330,
-        "class:weights_dtype_present:int32": 940, "class:weights_dtype_present:int64": 930, "class:history:reuse_calls": 1600,
+        "eval:blockmean_returns": 10900, "eval:blockmean_layout": 10900, "eval:labels_vs_reference_geometry": 10900,
+        "eval:params_unchanged_by_filter": 11100, "eval:block_mean_value": 167100, "eval:block_coordinate": 224100,
+        "eval:block_weight_rule": 17900, "eval:block_weight_range": 18600, "eval:blockmean_inputs_unmodified": 11100,
+        "eval:uncertainty_without_weights_rejected": 180, "eval:v2w_values": 31500, "eval:v2w_input_unmodified": 30000,
+        "eval:v2w_returns": 30000, "eval:series_backing_store_unmodified": 240, "distinct_nontrivial": 21400,
+        "class:rule:variance": 3600, "class:rule:uncertainty": 3400, "class:rule:weighted_variance": 3800,
+        "v2w_class:readonly": 15600, "v2w_class:has_nan": 7200, "class:data_dtype_present:int16": 1200,
+        "class:data_dtype_present:int32": 1200, "class:data_dtype_present:int64": 1200, "class:data_dtype_present:float32": 1900,
+        "block_weight_rule_judged:data_dtype:int16": 1500, "block_weight_rule_judged:data_dtype:int32": 1500,
+        "block_weight_rule_judged:data_dtype:int64": 1500, "block_weight_rule_judged:data_dtype:float32": 1500,
+        "class:mixed_data_dtypes:integer_then_float64": 470, "class:mixed_data_dtypes:float64_then_integer": 400,
+        "class:mixed_data_dtypes:float32_then_float64": 380, "class:mixed_data_dtypes:float64_then_float32": 370,
+        "class:weights_dtype_present:int32": 1000, "class:weights_dtype_present:int64": 1000, "class:history:reuse_calls": 1600,
         "class:history:reuse_calls:region_none": 1200, "class:history:reuse_calls:region_given": 390,
         "class:history:reuse_calls:rule_variance": 560, "class:history:reuse_calls:rule_uncertainty": 520,
         "class:history:reuse_calls:rule_weighted_variance": 530, "class:history:inplace_calls": 860,
         "class:history:inplace_calls:region_none": 640, "class:history:clone_after_filter_calls": 480,
+        "class:reconfigured_calls": 720, "class:reconfigured:how:set_params": 220,
+        "class:reconfigured:how:attribute_assignment": 240, "class:reconfigured:how:clone_then_set_params": 220,
+        "class:reconfigured:used_before": 350, "class:reconfigured:never_used_before": 350,
+        "class:reconfigured:uncertainty_False_to_True_with_weights": 230,
+        "class:reconfigured:uncertainty_True_to_False_with_weights": 160,
+        "class:reconfigured:rejected_without_weights_after_switching_uncertainty_on": 93,
+        "class:reconfigured:rule_in_force:uncertainty": 350, "class:reconfigured:rule_in_force:weighted_variance": 250,
+        "class:reconfigured:param:uncertainty": 460, "class:reconfigured:param:spacing": 200,
+        "class:reconfigured:param:shape_vs_spacing": 190, "class:reconfigured:param:region": 200,
+        "class:reconfigured:param:adjust": 200, "class:reconfigured:param:center_coordinates": 200,
+        "class:reconfigured:param:drop_coords": 200,
     },
 }
 JOBS = {"quick": 1, "thorough": 16}
@@ -100,8 +125,8 @@ EPS = blk.EPS
 
 def plan(tier):
     if tier == "quick":
-        return collections.OrderedDict(blockmean=130, plateau=30, series=36, reject=8, nested=6, v2w=45, v2w_nested_readonly=8, reuse=20, inplace=12)
-    return collections.OrderedDict(blockmean=1950, plateau=450, series=540, reject=60, nested=80, v2w=680, v2w_nested_readonly=60, reuse=300, inplace=180)
+        return collections.OrderedDict(blockmean=130, plateau=30, series=36, reject=8, nested=6, v2w=45, v2w_nested_readonly=8, reuse=20, inplace=12, reconfigure=30)
+    return collections.OrderedDict(blockmean=1950, plateau=450, series=540, reject=60, nested=80, v2w=680, v2w_nested_readonly=60, reuse=300, inplace=180, reconfigure=450)
 
 
 # ----------------------------------------------------------------------
@@ -668,6 +693,56 @@ def _history(run, rng, verde, inplace):
         run.count("class:history:%s_calls:center_coordinates" % tag, calls)
 
 
+def _reconfigured(run, rng, verde):
+    """
+    Built with P1, optionally used, then re-configured to P2 on the same object (set_params / attribute assignment) or on a clone
+    (clone().set_params) and used with the weights the rule in force needs: judged with the get_params snapshot taken just before the call.
+    """
+    east, north = blk.make_points(rng, n=int(rng.integers(10, 60)), kind=str(rng.choice(["uniform", "jitter", "clusters"])))
+    kwargs = blk.history_blocks(rng, east, north)
+    kwargs["drop_coords"] = bool(rng.random() < 0.5)
+    kwargs["uncertainty"] = bool(rng.random() < 0.5)
+    ncomp = int(rng.choice([1, 2]))
+    dtypes = blk.choose_dtypes(rng, ncomp)
+
+    def arguments(with_weights):
+        data = _fields(rng, east, north, ncomp, False, dtypes)
+        wts = _weights(rng, east.size, ncomp) if with_weights else None
+        coords = (east, north, gen.smooth_field(rng, east, north, amplitude=50.0))
+        return coords, (data[0] if ncomp == 1 else tuple(data)), (None if wts is None else (wts[0] if ncomp == 1 else tuple(wts)))
+
+    reducer = verde.BlockMean(**kwargs)
+    with warnings.catch_warnings():
+        warnings.simplefilter("ignore")
+        used = bool(rng.random() < 0.5)
+        if used:
+            reducer.filter(*arguments(kwargs["uncertainty"] or rng.random() < 0.5))
+        kinds = ["uncertainty", "spacing", "shape_vs_spacing", "region", "adjust", "center_coordinates", "drop_coords"]
+        changes, names = blk.pick_changes(rng, reducer.get_params(deep=False), east, north, kinds)
+        if "uncertainty" not in changes and rng.random() < 0.5:
+            changes["uncertainty"] = not kwargs["uncertainty"]
+            names.append("uncertainty")
+        reducer, how = blk.reconfigure(rng, reducer, changes)
+        now_uncertain = bool(reducer.uncertainty)
+        with_weights = now_uncertain or rng.random() < 0.75
+        reducer.filter(*arguments(with_weights))
+        if now_uncertain and "uncertainty" in changes and rng.random() < 0.4:
+            try:  # uncertainty switched on after construction: a call without weights must be rejected like on a fresh object
+                reducer.filter(*arguments(False))
+            except ValueError:
+                run.count("class:reconfigured:rejected_without_weights_after_switching_uncertainty_on")
+    rule = "uncertainty" if now_uncertain else ("weighted_variance" if with_weights else "variance")
+    run.count("class:reconfigured_calls")
+    run.count("class:reconfigured:how:" + how)
+    run.count("class:reconfigured:rule_in_force:" + rule)
+    run.count("class:reconfigured:" + ("used_before" if used else "never_used_before"))
+    for name in names:
+        run.count("class:reconfigured:param:" + name)
+    if "uncertainty" in changes and with_weights:
+        run.count("class:reconfigured:uncertainty_%s_with_weights" % ("False_to_True" if now_uncertain else "True_to_False"))
+    return {"constructed_with": kwargs, "used_before_the_change": used, "how": how, "changed_to": changes, "rule_in_force": rule}
+
+
 def _variance_array(rng, size=None):
     if size is None:
         size = int(rng.integers(1, 41))
@@ -731,7 +806,10 @@ def run_case(run, tap, stream, index, rng):
     import pandas as pd
     import verde
 
-    if stream == "reuse":
+    if stream == "reconfigure":
+        for _ in range(4):
+            info = _reconfigured(run, rng, verde)
+    elif stream == "reuse":
         for _ in range(2):
             _history(run, rng, verde, inplace=False)
     elif stream == "inplace":
